@@ -192,6 +192,11 @@ def quick_instances() -> list[Instance]:
                               ("fanvee", [2, 1], [("k", "0"), ("m2", "0")])]:
         outs, edges = S[shape]
         I.append(Instance(f"{shape}_{'+'.join(map(str, sizes))}_uneven", outs, edges, cluster_of(sizes), ext, trace_only=True))
+    # every worker has a GPU: CPU tasks of a mixed component can only run on GPU workers
+    for nh, nw in [(1, 1), (2, 1)]:
+        outs, edges = S["gpumix"]
+        I.append(Instance(f"gpumix_{nh}x{nw}_allgpu", outs, edges, cluster(nh, nw), [("k", "0")], trace_only=True,
+                          gpu_workers=[f"h{i}.w{j}" for i in range(nh) for j in range(nw)], gpu_tasks=["g"]))
     # mixed hosts: what Executor registers with one GPU and two workers (w0 has it, w1 has none), next to a GPU-less host
     for shape, nh, nw, gw, gt in [("gpufan", 1, 2, ["h0.w0"], ["g1", "g2", "g3"]), ("gpufan", 2, 2, ["h0.w0"], ["g1", "g2", "g3"]),
                                   ("gpufan", 2, 2, ["h0.w1", "h1.w0"], ["g1", "g2"]), ("gpusrc2", 1, 2, ["h0.w0"], ["g1", "g2"]),
